@@ -45,13 +45,20 @@ def plan(tier, seed):
             for extra in (0x20, 0xff20):
                 shards.append(dict(start=start, err=False, target=target,
                                    k=min(k, 1), extra=extra))
+    # one transition that takes a thousand polls and more: however long the
+    # terminal takes, the next state is requested only after it reported
+    for target in (2, 4, 8):
+        shards.append(dict(slow=True, target=target,
+                           polls=[999, 1000, 1001, 2500] if tier == "quick"
+                           else [999, 1000, 1001, 2500, 4096, 10001, 65537]))
     for i in range(4):
         shards.append(dict(many=True, seed=seed * 16 + i,
                            count=6 if tier == "quick" else 60))
     return shards
 
 
-def run_one(start, err, target, lats, acklat, errpoll, extra=0):
+def run_one(start, err, target, lats, acklat, errpoll, extra=0,
+            timeout=50):
     """returns (events, outcome) outcome = ('ret', value) | ('exc', repr)"""
     t = bus.SimTerminal("T", station=77)
     t.al_extra = extra
@@ -70,7 +77,7 @@ def run_one(start, err, target, lats, acklat, errpoll, extra=0):
         term.position = 77
         try:
             r = await asyncio.wait_for(
-                term.to_operational(MachineState(target)), 50)
+                term.to_operational(MachineState(target)), timeout)
             return ("ret", repr(r))
         except EtherCatError as ex:
             return ("raised", str(ex)[:80])
@@ -216,10 +223,49 @@ def many_leg(params, res):
                 return
 
 
+def slow_leg(params, res):
+    target = params["target"]
+    ORDER = [1, 2, 4, 8]
+    for start in ORDER:
+        if ORDER.index(start) >= ORDER.index(target):
+            continue
+        steps = [i for i in range(3)
+                 if ORDER.index(start) <= i < ORDER.index(target)]
+        for which in steps:
+            for n in params["polls"]:
+                lats = [0, 0, 0]
+                lats[which] = n
+                evs, out, t = run_one(start, False, target, lats, 0, None,
+                                      timeout=1e7)
+                desc = dict(start=NAMES[start], target=NAMES[target],
+                            latencies=lats, slow=True)
+                res.case(desc)
+                res.count("al_events", len(evs))
+                res.count("outcome:" + out[0])
+                res.count("behaviours_with_a_transition_of_1000_polls_or_more"
+                          if n >= 1000 else
+                          "behaviours_with_a_transition_of_999_polls")
+                why = automaton(evs, out, target)
+                if why:
+                    short = [e for j, e in enumerate(evs)
+                             if e[0] != "al_status_read" or j < 3
+                             or evs[j - 1][0] != "al_status_read"
+                             or j + 1 == len(evs)
+                             or evs[j + 1][0] != "al_status_read"]
+                    res.violation(
+                        "unexplained:" + why.split(" ")[0] + "-slow",
+                        why + f" [{desc}]", case=desc,
+                        witness=dict(events_without_repeated_reads=short,
+                                     outcome=out))
+
+
 def run_shard(params):
     res = Result()
     if params.get("many"):
         many_leg(params, res)
+        return res
+    if params.get("slow"):
+        slow_leg(params, res)
         return res
     k = params["k"]
     start, err, target = params["start"], params["err"], params["target"]
